@@ -242,11 +242,160 @@ def gen_cases(seed, count, max_ops):
     n16 = count // 3
     out = [gen_case(rng.fork(), max_ops) for _ in range(count - n16)]
     out += [["%reg 16"] + gen_case(rng.fork(), max_ops, ncomp=16) for _ in range(n16)]
+    # fault-injection cases (C17): about as many again, short
+    frng = SplitMix(seed * 31 + 7)
+    nf = count // 2
+    out[count - n16:count - n16] = [gen_fault_case(frng.fork(), 5) for _ in range(nf - nf // 4)]
+    out += [["%reg 16"] + gen_fault_case(frng.fork(), 16) for _ in range(nf // 4)]
     return out
+
+
+FAULT_SHAPES = {5: [0b01101, 0b11111, 0b01001, 0b10100, 0b00101, 0b01111, 0b11000],
+                16: [0x0081, 0x0180, 0x8001, 0x0300, 0x4102, 0x0A0A, 0x1030, 0x0409]}
+
+
+def gen_fault_case(rng, ncomp=5):
+    """A small multi-column world (and a second one related by clone), then ONE operation during which the
+    k-th user callback of some kind panics, then the automatic dump and the drop of every world."""
+    tok = [5000]
+
+    def fresh():
+        tok[0] += 1
+        return tok[0]
+    lines = ["%fault", "new 0 %d %d %d %d" % (fresh(), fresh(), fresh(), fresh())]
+    shapes = [rng.choice(FAULT_SHAPES[ncomp]) for _ in range(rng.choice([1, 2, 2, 3]))]
+    n = 0
+    ents = {}
+    for _ in range(rng.choice([2, 3, 4, 5, 6])):
+        m = rng.choice(shapes)
+        cs = [k for k in range(ncomp) if m >> k & 1]
+        lines.append("ins 0 0 %d %s" % (len(cs), " ".join("%d %d" % (c, fresh()) for c in cs)))
+        ents[n] = m
+        n += 1
+    if rng.chance(1, 2) and len(ents) > 1:
+        r = rng.choice(sorted(ents))
+        lines.append("rem 0 #%d" % r)
+        del ents[r]
+    two = rng.chance(2, 3)
+    if two:
+        lines.append("cln 0 1")
+        for _ in range(rng.below(4)):
+            if rng.chance(1, 2):
+                m = rng.choice(shapes)
+                cs = [k for k in range(ncomp) if m >> k & 1]
+                lines.append("ins 1 0 %d %s" % (len(cs), " ".join("%d %d" % (c, fresh()) for c in cs)))
+            else:
+                lines.append("rem 1 #%d" % rng.below(n))
+    ws = rng.below(2) if two else 0
+    other = 1 - ws
+    te = rng.choice(sorted(ents))
+    tgt = "#%d" % te
+    present = [k for k in range(ncomp) if ents[te] >> k & 1]
+    comp = rng.choice(present) if rng.chance(3, 4) else rng.below(ncomp)
+    cands = [("drop", "rem %d %s" % (ws, tgt)), ("drop", "clr %d" % ws), ("drop", "ead %d %s %d %d" % (ws, tgt, comp, fresh())),
+             ("drop", "erm %d %s %d" % (ws, tgt, comp)), ("drop", "wrt %d %s %d %d" % (ws, tgt, comp, fresh())),
+             ("drop", "rset %d %d %d 0" % (ws, rng.below(4), fresh())), ("drop", "drop %d" % ws),
+             ("clone", "cln %d 2" % ws), ("eq", "eq %d %d" % (ws, ws)), ("dbg", "dbg %d" % ws),
+             ("ser", "srd %d %d 2" % (rng.below(2), ws)), ("de", "srd %d %d 2" % (rng.below(2), ws)),
+             ("de", "mde %d 2 %d poison %d %d %d" % (ws, rng.below(2), rng.below(4), rng.below(4), rng.below(4))),
+             ("drop", "mde %d 2 %d dupid %d %d %d %d" % (ws, rng.below(2), rng.below(4), rng.below(4), rng.below(4), rng.below(4)))]
+    if two:
+        cands += [("clone", "clf %d %d" % (ws, other)), ("drop", "clf %d %d" % (ws, other)), ("clone", "clf %d %d" % (other, ws)),
+                  ("eq", "eq %d %d" % (ws, other))]
+    kind, op = rng.choice(cands)
+    lines.append("fault %s %d" % (kind, rng.choice([0, 0, 1, 1, 2, 3, 4, 6, 9])))
+    lines.append(op)
+    return lines
 
 
 def case_reg(c):
     return 16 if c and c[0].startswith("%reg 16") else 5
+
+
+def is_fault_case(impl_case):
+    return any(st["op"].startswith("fault ") for st in impl_case["steps"])
+
+
+def alloc_problems(impl_case):
+    """allocator audit of one case: (problems during ops, leaks at the end)"""
+    probs = [(i, x) for i, st in enumerate(impl_case["steps"]) for x in st.get("xa", [])]
+    probs += [(len(impl_case["steps"]), x) for x in impl_case.get("xa_end", [])]
+    leaks = None
+    a = impl_case.get("alloc")
+    if a:
+        import re as _re
+        m = _re.search(r"leaks=\[(.*?)\] allocs", a)
+        leaks = m.group(1).strip() if m else None
+    return probs, leaks
+
+
+K17_CLASSES = {("rem", "drop"): "K17a", ("clr", "drop"): "K17b", ("clf", "clone"): "K17c", ("clf", "drop"): "K17c"}
+
+
+def audited_double_drops(impl_case):
+    import re as _re
+    aud = impl_case.get("audit") or ""
+    part = aud.split("double=")[1] if "double=" in aud else ""
+    return sorted("%s:%s" % (c, v) for c, v in _re.findall(r"\((\d+), (\d+)\)", part))
+
+
+def fault_prediction_mismatch(impl_case, model_case):
+    """C17 correspondence: for the operations the cell-level model covers, the values the model predicts to be
+    dropped twice (after the injected panic and the drop of the world) are the ones the ledger saw."""
+    pd = model_case.get("pd") if model_case else None
+    if pd is None or pd == "?":
+        return None
+    steps = impl_case["steps"]
+    fi = next((i for i, st in enumerate(steps) if st["op"].startswith("fault ")), None)
+    if fi is None or fi + 1 >= len(steps) or not (steps[fi + 1]["ret"] or "").startswith("panic-injected"):
+        want = []
+    else:
+        want = sorted(pd.split())
+    got = audited_double_drops(impl_case)
+    # a heap-owning component dropped a second time reads its token from the freed (poisoned) box:
+    # the identity of the value is lost, the component and the multiplicity are not
+    if any(x.split(":")[1] in ("15987178197214944733", "3722304989", "56797", "221") for x in got):
+        got = sorted(x.split(":")[0] for x in got)
+        want = sorted(x.split(":")[0] for x in want)
+    if got != want:
+        return "model predicts double drops %s after `%s`, the implementation shows %s" % (want, steps[fi + 1]["op"] if fi is not None and fi + 1 < len(steps) else "?", got)
+    return None
+
+
+def oracle_fault_case(impl_case):
+    """C17: after a panic injected into the k-th user callback of one operation, and after dropping every world:
+    no value dropped twice, no block released twice or with a wrong layout, the worlds could be dropped."""
+    fails, known, corners = [], [], set()
+    steps = impl_case["steps"]
+    fi = next(i for i, st in enumerate(steps) if st["op"].startswith("fault "))
+    kind = steps[fi]["op"].split()[1]
+    target = steps[fi + 1] if fi + 1 < len(steps) else None
+    if target is None:
+        return {"fails": [], "known": [], "corners": set()}
+    opk = target["op"].split()[0]
+    opk = {"cde": "mde"}.get(opk, opk)
+    fired = (target["ret"] or "").startswith("panic-injected")
+    if (target["ret"] or "") == "panic":
+        fails.append((fi + 1, "C17", "operation panicked on its own while a fault was armed but not fired: %s" % target["op"]))
+    if fired:
+        corners.add("fault:%s:%s" % (opk, kind))
+    probs, leaks = alloc_problems(impl_case)
+    aud = impl_case.get("audit") or ""
+    dd = "double=[]" not in aud
+    bad = []
+    if dd:
+        bad.append("a value was dropped twice: " + aud)
+    for i, x in probs:
+        bad.append("allocator: " + x)
+    if bad and fired:
+        cls = K17_CLASSES.get((opk, kind))
+        if cls:
+            known.append((fi + 1, cls))
+        else:
+            fails.append((fi + 1, "C17", "panic injected into callback `%s` of `%s`: %s" % (kind, target["op"], "; ".join(bad)[:400])))
+    elif bad:
+        fails.append((fi + 1, "C17", "without any injected panic: %s" % "; ".join(bad)[:400]))
+    return {"fails": fails, "known": known, "corners": corners}
 
 
 def corpus_cases():
@@ -364,12 +513,24 @@ def parse_trace(path):
         elif line.startswith("nreg "):
             if cur is not None:
                 cur["nreg"] = int(line.split()[1])
+        elif line.startswith("alloc "):
+            if cur is not None:
+                cur["alloc"] = line
+        elif line.startswith("xa "):
+            if step is not None:
+                step.setdefault("xa", []).append(line[3:])
+            elif cur is not None:
+                cur.setdefault("xa_end", []).append(line[3:])
         elif line.startswith("audit"):
             if cur is not None:
                 cur["audit"] = line
+                step = None
         elif line.startswith("op "):
-            step = {"op": " ".join(line[3:].split()), "ret": None, "ev": [], "worlds": {}, "raw": []}
+            step = {"op": " ".join(line[3:].split()), "ret": None, "ev": [], "worlds": {}, "raw": [], "xa": []}
             cur["steps"].append(step)
+        elif line.startswith("pd"):
+            if cur is not None:
+                cur["pd"] = line[2:].strip()
         elif line.startswith("ret "):
             step["ret"] = line[4:]
         elif line.startswith("ev"):
@@ -381,7 +542,7 @@ def parse_trace(path):
                                                "foreign": [], "res": [], "live": [], "flags": [], "lines": []})
             w["lines"].append(line)
             parse_world_line(w, toks[2:])
-        if step is not None and not line.startswith("audit"):
+        if step is not None and not line.startswith("audit") and not line.startswith("alloc "):
             step["raw"].append(line)
     return cases
 
@@ -431,6 +592,8 @@ def first_divergence(impl_case, model_case, views, with_ret=True, with_ev=False,
         if i >= len(impl_case["steps"]) or i >= len(model_case["steps"]):
             return i
         a, b = impl_case["steps"][i], model_case["steps"][i]
+        if a["op"].startswith("fault "):
+            return None      # what follows an injected panic is judged by the C17 oracle alone
         if a["op"] != b["op"]:
             return i
         if op_filter and not op_filter(a["op"]):
@@ -927,6 +1090,8 @@ def world_values(ref, ws):
 def oracle_case(impl_case):
     """Run every oracle on one implementation case.
     Returns {'fails': [(step_index, prop, msg)], 'known': [(step_index, class)], 'corners': set()}"""
+    if is_fault_case(impl_case):
+        return oracle_fault_case(impl_case)
     ref = RefWorlds()
     ref.nreg = impl_case.get("nreg", 5)
     k11_leaked = Counter()
@@ -1133,6 +1298,12 @@ def oracle_case(impl_case):
         # values leaked by the known finding F9 (class K11) stay live for ever: not a new violation
         if not ("double=[]" in aud and all(n_ > 0 for n_ in live.values()) and not (live - k11_leaked)):
             fails.append((len(impl_case["steps"]), "C04", "end-of-case ledger audit: " + aud))
+    # C05: allocator audit (layouts, double/invalid frees during the case; every library block returned at the end)
+    probs, leaks = alloc_problems(impl_case)
+    for i_, x_ in probs:
+        fails.append((i_, "C05", "allocator audit: " + x_))
+    if leaks and not k11_leaked:
+        fails.append((len(impl_case["steps"]), "C05", "memory obtained during the case was not returned after every world was dropped: blocks (size, align) = [%s]" % leaks[:300]))
     return {"fails": fails, "known": known, "corners": corners}
 
 
